@@ -292,3 +292,61 @@ def _(run):
     u1 = z3.If(z3.And(mapper_kind == 1, in_map(u0)), mapped(u0), z3.If(mapper_kind == 2, mapped(u0), u0))
     want = norm(u1, z3.If(base_none, SV(''), base), base_none)
     run.post(ex, outs, pre, {'result-is-the-normalised-mapped-location': lambda kind, v, s: (v.t == want) if kind == 'return' and isinstance(v, VStr) else z3.BoolVal(False)})
+
+
+# ------------------------------------------------------------------ XMLResource.__init__: a sandboxed resource always has a sandbox root (C12)
+t = Target('resources.XMLResource.__init__.sandbox_root', ['C12'], FR, 'XMLResource.__init__', anchor="if allow == 'sandbox'",
+           note="statement contract on the first block of XMLResource.__init__: whatever the source is (a location string, a parsed tree, a file object, a stream), a resource created with "
+                "allow='sandbox' either has a base URL when the block is left - the caller's, or the directory of a LOCAL source location - or the constructor raises XMLSchemaValueError; "
+                "access_control() is vacuous for a resource without base URL, so this block is what makes the sandbox mode mean something",
+           assumes=['is_local_url, normalize_url and os.path.dirname are uninterpreted (the first is proved in urls.is_local_url, the second is covered by the bounded spelling catalogue)',
+                    'a source that is not a string is not a local URL (is_local_url answers False for trees and file objects: run-time clause of the bounded catalogue)'])
+
+
+@t.symbolic
+def _(run):
+    ex = run.exec(); st = new_state()
+    allow = z3.String('allow'); bnone = z3.Bool('base_url_none'); base = z3.String('base_url'); is_str = z3.Bool('source_is_a_string'); local = z3.Bool('is_local_url_of_source')
+    st.env.update(allow=VStr(allow), base_url=VOpt(bnone, VStr(base)), source=OPAQUE)
+    ex.callees['is_local_url'] = lambda e, s, r, a, k: VBool(local)
+    ex.callees['normalize_url'] = lambda e, s, r, a, k: VStr(z3.String('normalized_source'))
+    orig_call = ex.e_Call
+
+    def e_Call(e, s):
+        fsrc = ast.unparse(e.func)
+        if fsrc.startswith('os.'):          # os.path.dirname, os.fsdecode, ...: functions of the standard library, uninterpreted
+            for a in e.args: ex.ev(a, s)
+            return VStr(z3.String('source_directory')) if fsrc == 'os.path.dirname' else OPAQUE
+        return orig_call(e, s)
+    ex.e_Call = e_Call
+    ex.callees['fsdecode'] = lambda e, s, r, a, k: OPAQUE
+
+    def isinstance_(e, s, r, a, k):
+        tn = ast.unparse(a[1])
+        if tn == 'str': return VBool(is_str)
+        return VBool(z3.Bool('source_isinstance_' + re.sub(r'\W+', '_', tn)))
+    import re
+    ex.callees['isinstance'] = isinstance_
+    ex.names.update(str=OPAQUE, bytes=OPAQUE, Path=OPAQUE)
+    from xmlschema.exceptions import XMLSchemaValueError
+    ex.callees['XMLSchemaValueError'] = lambda e, s, r, a, k: VExc(XMLSchemaValueError)
+    # only a string can be a local URL
+    pre = z3.Implies(local, is_str)
+    run.inputs.update(allow=allow, base_url_none=bnone, source_is_a_string=is_str, is_local_url=local)
+    outs = ex.run(st, pre)
+
+    def rooted(kind, v, s):
+        if kind == 'raise': return z3.BoolVal(isinstance(v, VExc) and v.cls in (XMLSchemaValueError, AssertionError))
+        b = s.env['base_url']; none = b.none if isinstance(b, VOpt) else z3.BoolVal(False)
+        return z3.Implies(allow == SV('sandbox'), z3.Not(none))
+
+    def refused_only_without_root(kind, v, s):
+        if kind != 'raise': return z3.BoolVal(True)
+        return z3.And(allow == SV('sandbox'), bnone, z3.Not(local))
+
+    def callers_base_kept(kind, v, s):
+        if kind == 'raise': return z3.BoolVal(True)
+        b = s.env['base_url']
+        return z3.Implies(z3.Not(bnone), z3.And(z3.Not(b.none), b.val.t == base) if isinstance(b, VOpt) else b.t == base)
+    run.post(ex, outs, pre, {'a-sandboxed-resource-leaves-the-block-with-a-base-url-or-is-refused': rooted, 'refused-only-for-a-sandbox-without-a-derivable-root': refused_only_without_root,
+                             'an-explicit-base-url-is-kept': callers_base_kept})
